@@ -7,6 +7,7 @@ use std::io::{BufRead, Write};
 use std::panic::{catch_unwind, AssertUnwindSafe};
 
 mod ops_data;
+mod ops_codec;
 mod ops_acc;
 mod ops_adv;
 mod ops_blind;
@@ -16,11 +17,13 @@ mod ops_issue;
 mod ops_pok;
 mod ops_registry;
 mod ops_revoc;
+mod ops_total;
 mod util;
 
 fn dispatch(v: &Value) -> Value {
     let op = v["op"].as_str().unwrap_or("");
     match op {
+        o if o.starts_with("d_codec") => ops_codec::run(o, v),
         o if o.starts_with("d_") => ops_data::run(o, v),
         "f_pok" | "f_sigv" => ops_pok::run(op, v),
         "f_issue" | "f_schema_new" => ops_issue::run(op, v),
@@ -30,13 +33,30 @@ fn dispatch(v: &Value) -> Value {
         "f_acc" => ops_acc::run(op, v),
         "f_revoc" => ops_revoc::run(op, v),
         "f_registry" => ops_registry::run(op, v),
+        "f_total" => ops_total::run(op, v),
         o if o.starts_with("f_") => ops_flow::run(o, v),
         _ => json!({"r": "harness-error", "msg": format!("unknown op {op}")}),
     }
 }
 
 fn main() {
-    std::panic::set_hook(Box::new(|_| {}));
+    if std::env::var("ACVH_PANIC_MSG").is_err() {
+        // a panic is an observation: remember where it happened (file:line, crate-relative) and its message
+        std::panic::set_hook(Box::new(|info| {
+            let loc = info.location().map(|l| format!("{}:{}", l.file(), l.line())).unwrap_or_default();
+            let loc = match loc.rfind("/src/") {
+                // registry crates: keep "<crate-version>/src/..."; credx: "src/..."
+                Some(i) => {
+                    let head = &loc[..i];
+                    let krate = head.rsplit('/').next().unwrap_or("");
+                    if loc.contains("/.cargo/registry/") { format!("{}{}", krate, &loc[i..]) } else { loc[i + 1..].to_string() }
+                }
+                None => loc,
+            };
+            let msg = if let Some(s) = info.payload().downcast_ref::<&str>() { s.to_string() } else if let Some(s) = info.payload().downcast_ref::<String>() { s.clone() } else { String::new() };
+            *util::LAST_PANIC.lock().unwrap() = format!("{loc} :: {}", msg.chars().take(120).collect::<String>());
+        }));
+    }
     let args: Vec<String> = std::env::args().collect();
     let mode = args.get(1).map(|s| s.as_str()).unwrap_or("exec");
     match mode {
